@@ -25,7 +25,7 @@ ASSUMPTIONS = [
 ]
 REQUIRED = {t: ['curve:UnitSquare', 'curve:PiSquare', 'curve:LShape', 'curve:LShape-presplit', 'curve:Circle',
                 'curve:UnitInterval', 'sigma:1', 'sigma:1.5', 'sigma:2', 'bias:0.2', 'bias:0.5', 'bias:0.8',
-                'grading:refined-something', 'grading:space-marked-was-time-bisected', 'mode:bfs', 'mode:random']
+                'grading:refined-something', 'grading:space-marked-was-time-bisected', 'grading:repeated-on-graded-mesh', 'mode:bfs', 'mode:random']
             for t in ('quick', 'thorough')}
 TIMEOUT = {'quick': 900, 'thorough': 7200}
 CURVES = [('UnitSquare', False), ('PiSquare', False), ('LShape', False), ('LShape', True), ('Circle', False),
@@ -245,6 +245,24 @@ def run_shard(spec, acc):
                 res = graded_call(acc, ls, log, sigma, 4, wit, spec['cap'])
                 if res == 'skipped':
                     continue
+                if res == 'ok' and sigma == SIGMAS[h % 3]:
+                    # a graded mesh is a reachable mesh: go on refining and grade again, with the same or another exponent
+                    # (the driver grades after every marking step); state kept from an earlier call must not matter
+                    for rep in range(2):
+                        for _ in range(r2.randint(0, 12)):
+                            L = ls.leaves()
+                            e = L[r2.randrange(len(L))]
+                            if e.h_t < 1e-6 or e.h_x < 1e-6:
+                                continue
+                            ls.apply(('b', L.index(e), 0 if r2.random() < bias else 1))
+                        s2 = r2.choice(SIGMAS)
+                        ls.history.append(['grading', sigma if rep == 0 and False else s2])
+                        wit2 = {'mesh': ms, 'history': list(ls.history), 'sigma': s2, 'bias': bias, 'after_earlier_grading': True}
+                        res2 = graded_call(acc, ls, log, s2, 4, wit2, spec['cap'])
+                        if res2 != 'ok':
+                            break
+                        acc.seen('grading:repeated-on-graded-mesh')
+                        acc.case('%s|%s|%s|rep%d' % (cname, sig, s2, rep), None)
                 acc.case('%s|%s|%s' % (cname, sig, sigma), None)
                 acc.seen('curve:' + cname)
                 acc.seen('sigma:%s' % sigma)
